@@ -268,6 +268,12 @@ Decide(nd, raw) ==
                           THEN <<nd.fallback>> ELSE <<>>)
   ELSE raw
 
+\* runners/_shared/routing_validation.py: a route gate that returns a name outside its targets, or a
+\* list although it is single-target, raises (ValueError / TypeError): the gate FAILS, no decision is taken
+BadDecision(nd, raw) ==
+  /\ nd.kind = "route" /\ raw # <<None>>
+  /\ ((~nd.multi /\ Len(raw) > 1) \/ \E i \in 1..Len(raw) : raw[i] \notin Names(nd.targets))
+
 Path(prefix, n) == IF prefix = "" THEN n ELSE prefix \o "/" \o n
 
 (***************************************************************************)
@@ -344,7 +350,7 @@ ExecNode(pr, prefix, nd, args, st, step, mode) ==
       idx  == Get(st.w.ctr, path, 0) + 1
       call == [path |-> path, frame |-> prefix, node |-> nd.name, step |-> step,
                idx |-> idx, args |-> CallArgs(args), kind |-> nd.kind,
-               dec |-> IF IsGate(nd) /\ ~Fails(nd, idx, args)
+               dec |-> IF IsGate(nd) /\ ~Fails(nd, idx, args) /\ ~BadDecision(nd, RawDecision(nd, idx, args))
                        THEN Decide(nd, RawDecision(nd, idx, args)) ELSE NoDec]
       w1   == [st.w EXCEPT !.ctr = Put(st.w.ctr, path, idx), !.calls = st.w.calls \o <<call>>]
       base == [status |-> "ok", outs |-> <<>>, dec |-> NoDec, w |-> w1, err |-> NoErr, pause |-> NoPause]
@@ -410,6 +416,8 @@ ExecNode(pr, prefix, nd, args, st, step, mode) ==
                                   value |-> IF Len(args) > 0 THEN args[1][3] ELSE None]]
      ELSE [base EXCEPT !.outs = [j \in 1..Len(nd.outputs) |->
                              <<nd.outputs[j], IF j <= nd.ndata THEN (IF nd.answers # <<>> THEN nd.answers[j] ELSE "ans." \o nd.name \o "." \o nd.outputs[j]) ELSE Sent>>]]
+  ELSE IF IsGate(nd) /\ BadDecision(nd, RawDecision(nd, idx, args)) THEN
+     [base EXCEPT !.status = "fail", !.err = [path |-> path, kind |-> "decision"]]
   ELSE IF IsGate(nd) THEN
      LET d == Decide(nd, RawDecision(nd, idx, args))
          e == [key |-> CacheKey(nd, args), outs |-> NodeOuts(nd, args), dec |-> d]
